@@ -321,7 +321,8 @@ def run_mode(ctx, mode):
             jobs.append((f"wide{n_}-{storage}", wide, mode, storage, False, ctx.seed * 7919 + 78, {"flagdir": flagdir, "scale": 1, "wide": (L_, n_), "pairs": 3}))
     if ctx.thorough and len(jobs) > 6000:
         rnd = random.Random(ctx.seed)
-        jobs = rnd.sample(jobs, 6000)
+        special = [j for j in jobs if j[6].get("wide") or j[6].get("repeat")]      # the hand-made sessions are always run
+        jobs = rnd.sample([j for j in jobs if j not in special], 6000 - len(special)) + special
         ctx.notes["sampled_sessions"] = 6000
     else:
         ctx.exhaustive = True
